@@ -2,6 +2,7 @@ import LP.Props.C20
 import LP.Props.C20Heap
 import LP.Props.C20HeapOrder
 import LP.Props.C20HSet
+import LP.Props.C20HSetProbe
 #print axioms LP.SpecSet.C20_spec_insert
 #print axioms LP.SpecSet.C20_spec_remove
 #print axioms LP.SpecSet.C20_spec_size
@@ -33,3 +34,10 @@ import LP.Props.C20HSet
 #print axioms LP.HSet.extend_perm
 #print axioms LP.HSet.C20_hset_insert_perm_any
 #print axioms LP.HSet.C20_hset_reachable_size
+#print axioms LP.HSet.contains_complete
+#print axioms LP.HSet.pc_fill
+#print axioms LP.HSet.insert_pc
+#print axioms LP.HSet.extend_pc
+#print axioms LP.HSet.insert_good
+#print axioms LP.HSet.good_empty
+#print axioms LP.HSet.C20_hset_insert_only_partial
